@@ -20,12 +20,13 @@ CLAIMS = {
          "(Props/C15.lean validate_iff, corrupt_core_rejected, other_version_*_rejected). SEARCHED, not proved: every entry point (parse, compile incl. the "
          "CLI's error formatting and all stage pretty-printers, check_package, build_package, read_core, link_cores) on random texts, byte/token/"
          "same-class-token mutations of the corpus and of generated programs, type-directed generated programs (well-typed and with one ill-typed hole), the infinite-type family `occurs` (every way two inference variables are unified first x every way to tie the knot), "
+         "the call-arity catalogue (harness/src/arity.rs: every callee kind — each function, inherent method and trait method of the REAL initial environment read at run time, user/generic functions, constructors, closures, inherent/trait/dyn methods, extern functions, non-callees, and a builtin's name re-bound by a user fn / extern / local — x every argument count 0..declared+2 x three argument fillings x 16 call contexts, each text through parse, compile, check_package, build_package, link_cores and the three editor queries), "
          "22 nesting forms to depth 200, package directory layouts (missing/misnamed/cyclic/self-importing/invalid-UTF-8/multi-file), altered artefacts "
          "(random bytes/JSON, truncation, every kind of single-value change) — each case in a child process (8 MiB main-thread stack) under catch_unwind "
          "with a CPU-time watchdog; oracle: Ok or Err with at least one error diagnostic, every diagnostic range inside the text on char boundaries, no panic, "
          "no abort, no hang. One signature per panic site (file + function) x entry point x stream class.",
     design_ref="§5 C04, §C04 — as built",
-    note="Trusted: Lean kernel; extract_parser_consts/extract_recovery (regex over parser.rs, expr.rs, file.rs); harness/src/c04.rs, c04gen.rs, crash.rs, "
+    note="Trusted: Lean kernel; extract_parser_consts/extract_recovery (regex over parser.rs, expr.rs, file.rs); harness/src/c04.rs, c04gen.rs, arity.rs, crash.rs, "
          "jsonspan.rs. Crash-freedom is a search result over the explored inputs only; item parsers are covered by the StepOK closure argument, not modelled one "
          "by one; ranges of diagnostics of multi-file projects are not checked (no file attribution). Known findings: polymorphic recursion never returns; "
          "link_cores panics on a .core whose core_ir was edited (three sites).",
